@@ -776,6 +776,25 @@ func checkEmission(w *World, r *Result, fi *FuncInfo, loop *ast.RangeStmt, slice
 			continue
 		}
 		setName := setObj.Name()
+		// "each distinct ID exactly once": the membership test is the only thing that may skip a declaration. Any other
+		// condition on the way to the write (a comparison with the previous ID, whose initial value is itself a legal ID;
+		// a test of the content) drops declarations whose ID was never written
+		var extras []string
+		for _, c := range conds {
+			if c.loop || (c.expr == nil && c.text == "") {
+				continue
+			}
+			if c.expr != nil {
+				if m, key := mapMembershipExpr(info, fi.Decl, c.expr); m != nil && m == setObj && es(key) == elem+".ID" {
+					continue
+				}
+			}
+			extras = append(extras, normCond(info, c, nil))
+		}
+		if len(extras) > 0 {
+			r.bad("PTH-C19a", name, cons, w.Pos(wr.call.Pos()), "besides the membership test on "+setName+", the write is only reached under {"+strings.Join(extras, ", ")+"}: a declaration can be skipped although its ID was never written (e.g. a comparison with `the previous ID` is true for the first declaration when its ID equals the variable's initial value, the empty string)")
+			continue
+		}
 		r.ok("PTH-C19a", name, cons, w.Pos(wr.call.Pos()), "guarded by a failed membership test on "+setName+"["+elem+".ID]", true)
 		// update of the set under the same conditions as the write (whenever a content is emitted its ID is recorded,
 		// and it is not recorded before the test)
